@@ -1,12 +1,375 @@
-(* C18 lemmas (see Props.v for the statements). *)
-From Coq Require Import ZArith QArith Qcanon List Bool Arith Lia.
+(* C18 lemmas (see Props.v for the statements).
+   Everything is parametric in the message group: a type G with a commutative group
+   (gadd, gopp, gzero) and an action of Qc (gscale) -- the natural parameters of an
+   exponential family.  The executed instance (Qc * Qc) satisfies the laws (n2_laws). *)
+From Coq Require Import ZArith QArith Qcanon List Bool Arith Lia Permutation.
 From PAFC18 Require Import Model.
 Import ListNotations.
+Local Close Scope Qc_scope.
+Local Close Scope Q_scope.
+Local Open Scope nat_scope.
 
+(* ---------- generic list facts ---------- *)
 Lemma replace_nth_length {A} (i : nat) (x : A) (l : list A) : length (replace_nth i x l) = length l.
 Proof. revert i. induction l as [|y l IH]; intros [|i]; simpl; auto. Qed.
 
 Lemma replace_nth_other {A} (i j : nat) (x d : A) (l : list A) : i <> j -> nth j (replace_nth i x l) d = nth j l d.
+Proof. revert i j. induction l as [|y l IH]; intros [|i] [|j] H; simpl; auto; try congruence. Qed.
+
+Lemma replace_nth_same {A} (i : nat) (x d : A) (l : list A) : i < length l -> nth i (replace_nth i x l) d = x.
+Proof. revert i. induction l as [|y l IH]; intros [|i] H; simpl in *; try lia; auto. apply IH. lia. Qed.
+
+Lemma replace_nth_split {A} (i : nat) (x : A) (l : list A) : i < length l ->
+  replace_nth i x l = firstn i l ++ x :: skipn (S i) l.
+Proof. revert i. induction l as [|y l IH]; intros [|i] H; simpl in *; try lia; auto. f_equal. apply IH. lia. Qed.
+
+Lemma remove_nth_split {A} (i : nat) (l : list A) : remove_nth i l = firstn i l ++ skipn (S i) l.
+Proof. revert i. induction l as [|y l IH]; intros [|i]; simpl; auto. f_equal. apply IH. Qed.
+
+Lemma nth_split_at {A} (i : nat) (d : A) (l : list A) : i < length l ->
+  l = firstn i l ++ nth i l d :: skipn (S i) l.
+Proof. revert i. induction l as [|y l IH]; intros [|i] H; simpl in *; try lia; auto. f_equal. apply IH. lia. Qed.
+
+Lemma remove_nth_map {A B} (f : A -> B) (i : nat) (l : list A) : remove_nth i (map f l) = map f (remove_nth i l).
+Proof. revert i. induction l as [|y l IH]; intros [|i]; simpl; auto. f_equal. apply IH. Qed.
+
+Lemma has_var_In (v : var) (l : list var) : has_var v l = true <-> In v l.
 Proof.
-  revert i j. induction l as [|y l IH]; intros [|i] [|j] H; simpl; auto; try congruence.
+  unfold has_var. rewrite existsb_exists. split.
+  - intros [x [Hx E]]. apply Nat.eqb_eq in E. subst. exact Hx.
+  - intro H. exists v. split; [exact H|apply Nat.eqb_refl].
 Qed.
+
+Lemma has_var_false (v : var) (l : list var) : has_var v l = false <-> ~ In v l.
+Proof. rewrite <- has_var_In. destruct (has_var v l); split; congruence. Qed.
+
+Lemma has_var_nodup (v : var) (l : list var) : has_var v (nodup Nat.eq_dec l) = has_var v l.
+Proof.
+  destruct (has_var v l) eqn:E.
+  - apply has_var_In. apply nodup_In. apply has_var_In. exact E.
+  - apply has_var_false. rewrite nodup_In. apply has_var_false. exact E.
+Qed.
+
+(* ---------- the laws ---------- *)
+Record group_laws (G : Type) (gadd : G -> G -> G) (gopp : G -> G) (gzero : G) : Prop := {
+  g_comm : forall x y, gadd x y = gadd y x;
+  g_assoc : forall x y z, gadd x (gadd y z) = gadd (gadd x y) z;
+  g_zero_l : forall x, gadd gzero x = x;
+  g_opp_r : forall x, gadd x (gopp x) = gzero
+}.
+Record module_laws (G : Type) (gadd : G -> G -> G) (gscale : Qc -> G -> G) : Prop := {
+  m_add_r : forall s x y, gscale s (gadd x y) = gadd (gscale s x) (gscale s y);
+  m_add_l : forall s t x, gscale (s + t)%Qc x = gadd (gscale s x) (gscale t x);
+  m_mul : forall s t x, gscale s (gscale t x) = gscale (s * t)%Qc x;
+  m_one : forall x, gscale (Q2Qc 1) x = x
+}.
+
+Lemma n2_group : group_laws N2 n_add n_opp n_zero.
+Proof.
+  split; intros; unfold n_add, n_opp, n_zero; simpl;
+    repeat match goal with x : N2 |- _ => destruct x end; simpl; f_equal; ring.
+Qed.
+Lemma n2_module : module_laws N2 n_add n_scale.
+Proof.
+  split; intros; unfold n_add, n_scale; simpl;
+    repeat match goal with x : N2 |- _ => destruct x end; simpl; f_equal; ring.
+Qed.
+
+Section Laws.
+  Variable G : Type.
+  Variable gadd : G -> G -> G.
+  Variable gopp : G -> G.
+  Variable gzero : G.
+  Variable gscale : Qc -> G -> G.
+  Variable gvalid : G -> bool.
+  Hypothesis GL : group_laws G gadd gopp gzero.
+  Hypothesis ML : module_laws G gadd gscale.
+
+  Notation mf := (mf G).
+  Notation state := (state G).
+  Notation get := (get G).
+  Notation omul := (omul G gadd).
+  Notation prod_at := (prod_at G gadd).
+  Notation cavity := (cavity G gadd).
+  Notation model_dist := (model_dist G gadd).
+  Notation global := (global G gadd).
+  Notation own := (own G).
+  Notation keys := (keys G).
+  Notation step := (step G gadd gopp gscale gvalid).
+  Notation project := (project G gadd gopp gscale gvalid).
+  Notation cand := (cand G gadd gopp gscale).
+  Notation cand_valid := (cand_valid G gvalid).
+  Notation new_msg := (new_msg G gadd gopp gscale gvalid).
+  Notation update_factor_mf := (update_factor_mf G gadd gopp gscale gvalid).
+
+  Lemma gadd_zero_r x : gadd x gzero = x.
+  Proof. rewrite (g_comm _ _ _ _ GL). apply (g_zero_l _ _ _ _ GL). Qed.
+  Lemma gadd_opp_l x : gadd (gopp x) x = gzero.
+  Proof. rewrite (g_comm _ _ _ _ GL). apply (g_opp_r _ _ _ _ GL). Qed.
+  Lemma gsub_add x c : gadd (gadd x (gopp c)) c = x.
+  Proof. rewrite <- (g_assoc _ _ _ _ GL), gadd_opp_l. apply gadd_zero_r. Qed.
+
+  (* ---------- omul / prod_at ---------- *)
+  Lemma omul_none_r a : omul a None = a.
+  Proof. destruct a; reflexivity. Qed.
+  Lemma omul_comm a b : omul a b = omul b a.
+  Proof. destruct a, b; simpl; auto. f_equal. apply (g_comm _ _ _ _ GL). Qed.
+  Lemma omul_assoc a b c : omul a (omul b c) = omul (omul a b) c.
+  Proof. destruct a, b, c; simpl; auto. f_equal. apply (g_assoc _ _ _ _ GL). Qed.
+
+  Lemma prod_at_start v s ms : prod_at v s ms = omul s (prod_at v None ms).
+  Proof.
+    unfold Model.prod_at. revert s. induction ms as [|m ms IH]; intro s; simpl.
+    - symmetry. apply omul_none_r.
+    - rewrite IH. rewrite (IH (get v m)). apply eq_sym, omul_assoc.
+  Qed.
+
+  Lemma prod_at_cons v m ms : prod_at v None (m :: ms) = omul (get v m) (prod_at v None ms).
+  Proof. unfold Model.prod_at at 1. simpl. apply prod_at_start. Qed.
+
+  Lemma prod_at_app v a b : prod_at v None (a ++ b) = omul (prod_at v None a) (prod_at v None b).
+  Proof.
+    induction a as [|m a IH]; [reflexivity|].
+    rewrite <- app_comm_cons, !prod_at_cons, IH. apply omul_assoc.
+  Qed.
+
+  (* the "product of the messages" is a plain right fold and does not depend on dict order *)
+  Lemma prod_at_fold v ms : prod_at v None ms = fold_right omul None (map (get v) ms).
+  Proof. induction ms as [|m ms IH]; [reflexivity|]. rewrite prod_at_cons, IH. reflexivity. Qed.
+
+  Lemma prod_at_perm v ms ms' : Permutation ms ms' -> prod_at v None ms = prod_at v None ms'.
+  Proof.
+    induction 1 as [|m a b _ IH|m1 m2 a|a b c _ IH1 _ IH2].
+    - reflexivity.
+    - rewrite !prod_at_cons, IH. reflexivity.
+    - rewrite !prod_at_cons, !omul_assoc, (omul_comm (get v m2)). reflexivity.
+    - congruence.
+  Qed.
+
+  Lemma prod_at_none v ms : (forall m, In m ms -> get v m = None) -> prod_at v None ms = None.
+  Proof.
+    induction ms as [|m ms IH]; intro H; [reflexivity|].
+    rewrite prod_at_cons, (H m (or_introl eq_refl)), IH; [reflexivity|].
+    intros m' Hm. apply H. right. exact Hm.
+  Qed.
+
+  (* ---------- lookups ---------- *)
+  Lemma get_in_keys v (m : mf) g : get v m = Some g -> In v (keys m).
+  Proof.
+    induction m as [|[w x] m IH]; simpl; [discriminate|].
+    destruct (Nat.eqb w v) eqn:E; intro H.
+    - left. apply Nat.eqb_eq. exact E.
+    - right. apply IH. exact H.
+  Qed.
+
+  Lemma get_not_in_keys v (m : mf) : ~ In v (keys m) -> get v m = None.
+  Proof.
+    induction m as [|[w x] m IH]; simpl; intro H; [reflexivity|].
+    destruct (Nat.eqb w v) eqn:E.
+    - exfalso. apply H. left. apply Nat.eqb_eq. exact E.
+    - apply IH. tauto.
+  Qed.
+
+  Lemma get_prod_ones v ks others :
+    get v (prod_ones G gadd ks others) = if has_var v ks then prod_at v None others else None.
+  Proof.
+    unfold prod_ones. induction ks as [|w ks IH]; simpl; [reflexivity|].
+    destruct (Nat.eqb v w) eqn:E.
+    - apply Nat.eqb_eq in E. subst w. simpl.
+      destruct (prod_at v None others) eqn:P; simpl.
+      + rewrite Nat.eqb_refl. reflexivity.
+      + rewrite IH. destruct (has_var v ks); reflexivity.
+    - simpl. destruct (prod_at w None others); simpl; [|exact IH].
+      rewrite Nat.eqb_sym, E. exact IH.
+  Qed.
+
+  Lemma get_map_values v (F : var -> G -> G) (m : mf) :
+    get v (map (fun vn => (fst vn, F (fst vn) (snd vn))) m) = option_map (F v) (get v m).
+  Proof.
+    induction m as [|[w x] m IH]; simpl; [reflexivity|].
+    destruct (Nat.eqb w v) eqn:E; [|exact IH].
+    apply Nat.eqb_eq in E. subst. reflexivity.
+  Qed.
+
+  Lemma keys_map_values (F : var -> G -> G) (m : mf) :
+    keys (map (fun vn => (fst vn, F (fst vn) (snd vn))) m) = keys m.
+  Proof. unfold Model.keys. rewrite map_map. reflexivity. Qed.
+
+  (* ---------- cavity, model distribution, global approximation ---------- *)
+  Lemma cavity_get i st v :
+    get v (cavity i st) = if has_var v (keys (own i st)) then prod_at v None (remove_nth i st) else None.
+  Proof. unfold Model.cavity. apply get_prod_ones. Qed.
+
+  Lemma cavity_get_own i st v m : get v (own i st) = Some m ->
+    get v (cavity i st) = prod_at v None (remove_nth i st).
+  Proof.
+    intro H. rewrite cavity_get. apply get_in_keys in H. apply has_var_In in H. rewrite H. reflexivity.
+  Qed.
+
+  Lemma in_all_vars st m v : In m st -> In v (keys m) -> In v (all_vars G st).
+  Proof.
+    intros Hm Hv. unfold all_vars. apply nodup_In. apply in_concat.
+    exists (keys m). split; [apply in_map; exact Hm|exact Hv].
+  Qed.
+
+  Lemma global_get st v : get v (global st) = prod_at v None st.
+  Proof.
+    unfold Model.global. rewrite get_prod_ones.
+    destruct (has_var v (all_vars G st)) eqn:E; [reflexivity|].
+    symmetry. apply prod_at_none. intros m Hm.
+    apply get_not_in_keys. intro Hv. apply has_var_false in E. apply E.
+    apply (in_all_vars st m v Hm Hv).
+  Qed.
+
+  Lemma model_dist_get i st v :
+    get v (model_dist i st) =
+    match get v (own i st) with Some m => omul (Some m) (get v (cavity i st)) | None => None end.
+  Proof.
+    unfold Model.model_dist, times_cavity.
+    rewrite (get_map_values v (fun w x => match get w (cavity i st) with Some c => gadd x c | None => x end)).
+    destruct (get v (own i st)); simpl; [|reflexivity].
+    destruct (get v (cavity i st)); reflexivity.
+  Qed.
+
+  Lemma prod_at_split i st v : i < length st ->
+    prod_at v None st = omul (get v (own i st)) (prod_at v None (remove_nth i st)).
+  Proof.
+    intro Hi. rewrite (nth_split_at i [] st Hi) at 1.
+    rewrite prod_at_app, prod_at_cons, remove_nth_split, prod_at_app.
+    unfold Model.own. rewrite !omul_assoc. f_equal. apply omul_comm.
+  Qed.
+
+  (* own message * cavity = model distribution = global approximation, on the factor's variables *)
+  Theorem model_eq i st v m : i < length st -> get v (own i st) = Some m ->
+    get v (model_dist i st) = omul (Some m) (get v (cavity i st))
+    /\ get v (model_dist i st) = get v (global st).
+  Proof.
+    intros Hi Hm. rewrite model_dist_get, Hm. split; [reflexivity|].
+    rewrite (cavity_get_own i st v m Hm), global_get, (prod_at_split i st v Hi), Hm. reflexivity.
+  Qed.
+
+  (* ---------- one update ---------- *)
+  Lemma project_length i dl cavd last new st : length (project i dl cavd last new st) = length st.
+  Proof. apply replace_nth_length. Qed.
+
+  Lemma project_other i j dl cavd last new st : i <> j ->
+    own j (project i dl cavd last new st) = own j st.
+  Proof. intro H. unfold Model.own, Model.project. apply replace_nth_other. exact H. Qed.
+
+  Lemma project_own i dl cavd last new st : i < length st ->
+    own i (project i dl cavd last new st) = update_factor_mf dl cavd last new.
+  Proof. intro H. unfold Model.own, Model.project. apply replace_nth_same. exact H. Qed.
+
+  Lemma project_remove i dl cavd last new st :
+    remove_nth i (project i dl cavd last new st) = remove_nth i st.
+  Proof.
+    unfold Model.project. generalize (update_factor_mf dl cavd last new). intro x.
+    revert i. induction st as [|y st IH]; intros [|i]; simpl; auto. f_equal. apply IH.
+  Qed.
+
+  Lemma update_get dl cavd last new v :
+    get v (update_factor_mf dl cavd last new) = option_map (new_msg dl cavd last v) (get v new).
+  Proof. unfold Model.update_factor_mf. apply (get_map_values v (new_msg dl cavd last)). Qed.
+
+  (* global approximation after an update of factor i, for a variable the new distribution mentions *)
+  Lemma global_after i dl cavd last new st v nw : i < length st -> get v new = Some nw ->
+    get v (global (project i dl cavd last new st)) =
+    omul (Some (new_msg dl cavd last v nw)) (prod_at v None (remove_nth i st)).
+  Proof.
+    intros Hi Hn. rewrite global_get.
+    rewrite (prod_at_split i _ v) by (rewrite project_length; exact Hi).
+    rewrite project_own by exact Hi. rewrite update_get, Hn, project_remove. reflexivity.
+  Qed.
+
+  Theorem update_exact i dl new st v nw : i < length st ->
+    is_full dl = true -> get v new = Some nw -> In v (keys (own i st)) ->
+    gvalid (full_cand G gadd gopp nw (get v (cavity i st))) = true ->
+    get v (global (step i dl new st)) = Some nw.
+  Proof.
+    intros Hi Hf Hn Hv Hvalid. unfold Model.step.
+    rewrite (global_after i dl _ _ new st v nw Hi Hn).
+    assert (Hc : get v (cavity i st) = prod_at v None (remove_nth i st)).
+    { rewrite cavity_get. apply has_var_In in Hv. rewrite Hv. reflexivity. }
+    unfold Model.new_msg, Model.cand, Model.cand_valid. rewrite Hf. simpl. rewrite Hvalid. simpl.
+    rewrite <- Hc. destruct (get v (cavity i st)) as [c|]; simpl; [|reflexivity].
+    f_equal. apply gsub_add.
+  Qed.
+
+  (* an improper projection keeps the variable's previous message, hence its global approximation *)
+  Theorem update_invalid_keeps i dl new st v nw l : i < length st ->
+    get v new = Some nw -> get v (own i st) = Some l ->
+    cand_valid (cand dl (cavity i st) (own i st) v nw) = false ->
+    get v (own i (step i dl new st)) = Some l
+    /\ get v (global (step i dl new st)) = get v (global st).
+  Proof.
+    intros Hi Hn Hl Hbad. unfold Model.step. split.
+    - rewrite project_own by exact Hi. rewrite update_get, Hn. simpl.
+      unfold Model.new_msg. rewrite Hbad, Hl. reflexivity.
+    - rewrite (global_after i dl _ _ new st v nw Hi Hn).
+      unfold Model.new_msg. rewrite Hbad, Hl.
+      rewrite global_get, (prod_at_split i st v Hi), Hl. reflexivity.
+  Qed.
+
+  Lemma gscale_split d x : gadd (gscale d x) (gscale (Q2Qc 1 - d)%Qc x) = x.
+  Proof.
+    rewrite <- (m_add_l _ _ _ ML). replace (d + (Q2Qc 1 - d))%Qc with (Q2Qc 1) by ring.
+    apply (m_one _ _ _ ML).
+  Qed.
+
+  Lemma gscale_opp_add d c x : gadd (gadd x (gopp (gscale d c))) c = gadd x (gscale (Q2Qc 1 - d)%Qc c).
+  Proof.
+    rewrite <- (gscale_split d c) at 2.
+    rewrite <- !(g_assoc _ _ _ _ GL). f_equal.
+    rewrite (g_assoc _ _ _ _ GL), gadd_opp_l. apply (g_zero_l _ _ _ _ GL).
+  Qed.
+
+  (* a damped update moves the global approximation to  d * new + (1 - d) * old  *)
+  Theorem update_damped i dl new st v nw l g : i < length st ->
+    is_full dl = false -> get v new = Some nw -> get v (own i st) = Some l ->
+    get v (global st) = Some g ->
+    cand_valid (cand dl (cavity i st) (own i st) v nw) = true ->
+    get v (global (step i dl new st)) =
+    Some (gadd (gscale (delta_at dl v) nw) (gscale (Q2Qc 1 - delta_at dl v)%Qc g)).
+  Proof.
+    intros Hi Hf Hn Hl Hg Hok. unfold Model.step.
+    rewrite (global_after i dl _ _ new st v nw Hi Hn).
+    assert (Hc : get v (cavity i st) = prod_at v None (remove_nth i st)) by (apply (cavity_get_own i st v l Hl)).
+    rewrite global_get, (prod_at_split i st v Hi), Hl, <- Hc in Hg.
+    unfold Model.new_msg. rewrite Hok.
+    unfold Model.cand. rewrite Hf. simpl. rewrite Hl, <- Hc.
+    set (d := delta_at dl v).
+    destruct (get v (cavity i st)) as [c|]; simpl in *; injection Hg as <-; f_equal.
+    rewrite gscale_opp_add, (m_add_r _ _ _ ML).
+    rewrite <- !(g_assoc _ _ _ _ GL). reflexivity.
+  Qed.
+
+  (* ---------- sequences of updates ---------- *)
+  Definition run_steps (steps : list (nat * delta * mf)) (st : state) : state :=
+    fold_left (fun s x => step (fst (fst x)) (snd (fst x)) (snd x) s) steps st.
+
+  Theorem untouched_factor steps st j :
+    (forall x, In x steps -> fst (fst x) <> j) -> own j (run_steps steps st) = own j st.
+  Proof.
+    unfold run_steps. revert st. induction steps as [|x steps IH]; intros st H; simpl; [reflexivity|].
+    rewrite IH by (intros y Hy; apply H; right; exact Hy).
+    unfold Model.step. apply project_other. apply H. left. reflexivity.
+  Qed.
+
+  Lemma run_steps_length steps st : length (run_steps steps st) = length st.
+  Proof.
+    unfold run_steps. revert st. induction steps as [|x steps IH]; intro st; simpl; [reflexivity|].
+    rewrite IH. unfold Model.step. apply project_length.
+  Qed.
+
+  (* the bookkeeping identities hold after every sequence of updates of every kind *)
+  Theorem identities_after_any_sequence steps st i v m : i < length st ->
+    get v (own i (run_steps steps st)) = Some m ->
+    get v (model_dist i (run_steps steps st)) = omul (Some m) (get v (cavity i (run_steps steps st)))
+    /\ get v (model_dist i (run_steps steps st)) = get v (global (run_steps steps st))
+    /\ get v (global (run_steps steps st)) = fold_right omul None (map (get v) (run_steps steps st)).
+  Proof.
+    intros Hi Hm. rewrite <- (run_steps_length steps st) in Hi.
+    destruct (model_eq i _ v m Hi Hm) as [A B]. repeat split; auto.
+    rewrite global_get. apply prod_at_fold.
+  Qed.
+End Laws.
